@@ -163,6 +163,7 @@ func outWorld(c outCfg) *world {
 		w.opts = append(w.opts, WithSocketSendBuffer(c.sndbuf))
 	}
 	st := &outState{}
+	w.aux = st
 	if c.deviate {
 		lt := c.mode == "LT"
 		w.deviate = func(site string, fd int, n int) []string {
@@ -314,6 +315,51 @@ func outWorld(c outCfg) *world {
 	return w
 }
 
+// outClientWorld: the same write programs on the client side (Client.Enroll of a socketpair end).
+func outClientWorld(c outCfg) sched.Scenario {
+	w := outWorld(c)
+	st := w.aux.(*outState)
+	opts := append([]Option{WithLogger(nopLogger{}), WithNumEventLoop(1)}, w.opts...)
+	cw := &clientWorld{world: w}
+	cw.body = func(cw *clientWorld) {
+		cli, err := NewClient(&mcHandler{w}, opts...)
+		if err != nil {
+			w.violate("client:new", "NewClient: %v", err)
+			return
+		}
+		if err := cli.Start(); err != nil {
+			w.violate("client:start", "Client.Start: %v", err)
+			return
+		}
+		w.booted = true
+		nc, pfd, err := socketpairConn()
+		if err != nil {
+			w.violate("client:socketpair", "%v", err)
+			return
+		}
+		p := w.newPeer()
+		p.fd = pfd
+		finished := false
+		sched.Go("peer", func() {
+			p.send([]byte("g"))
+			if c.stall {
+				sched.WaitIdle()
+			}
+			sched.BlockUntil(func() bool { return st.done || p.eof })
+			p.recv(total(st.cbSeq, st.userSeq))
+			finished = true
+		})
+		if _, err := cli.Enroll(nc); err != nil {
+			w.violate("client:enroll", "Client.Enroll: %v", err)
+		}
+		sched.BlockUntil(func() bool { return finished })
+		sched.WaitIdle()
+		w.runErr = cli.Stop()
+		sched.Go("closer", func() { p.close() })
+	}
+	return cw
+}
+
 func outBuffered(ci *connInfo) int {
 	if c, ok := ci.c.(*conn); ok && c.opened {
 		return c.OutboundBuffered()
@@ -446,6 +492,17 @@ func outSchedConfigs() ([]sched.Config, func(string) *sched.Config) {
 	var sel []sched.Config
 	for _, c := range outConfigs(thorough) {
 		sel = append(sel, mk(c))
+	}
+	for _, c := range outConfigs(true) {
+		c := c
+		if c.name == "out/LT/write1025+write1" || c.name == "out/ET/write1025+write1" || c.name == "out/LT/readfrom+flush" || c.name == "out/ET/writev-split" {
+			cc := mk(c)
+			cc.Name = "client/" + c.name
+			c.name = cc.Name
+			cc.New = func() sched.Scenario { return outClientWorld(c) }
+			all = append(all, cc)
+			sel = append(sel, cc)
+		}
 	}
 	for _, mode := range []string{"LT", "ET"} {
 		mode := mode
